@@ -843,10 +843,25 @@ func (f *c20lsFn) call(c *ast.CallExpr) {
 		if x, ok := sel.X.(*ast.Ident); ok && x.Name == "os" && f.imports["os"] {
 			switch sel.Sel.Name {
 			case "OpenFile":
-				if len(c.Args) >= 2 && c20HasFlag(c.Args[1], "O_CREATE") {
-					if c20HasFlag(c.Args[1], "O_EXCL") {
+				// every open that can create or modify a file counts; it is exclusive only as
+				// O_CREATE|O_EXCL. Opening an EXISTING name for writing (O_TRUNC, O_WRONLY, O_RDWR,
+				// O_APPEND without O_CREATE|O_EXCL: "take over a leftover") or flags the scanner cannot
+				// read are non-exclusive.
+				if len(c.Args) >= 2 {
+					a := c.Args[1]
+					known := false
+					for _, fl := range []string{"O_RDONLY", "O_WRONLY", "O_RDWR", "O_APPEND", "O_CREATE", "O_EXCL", "O_TRUNC", "O_SYNC"} {
+						if c20HasFlag(a, fl) {
+							known = true
+						}
+					}
+					writes := c20HasFlag(a, "O_WRONLY") || c20HasFlag(a, "O_RDWR") || c20HasFlag(a, "O_APPEND") || c20HasFlag(a, "O_TRUNC") || c20HasFlag(a, "O_CREATE")
+					switch {
+					case !known:
+						f.emit("GCreate false")
+					case c20HasFlag(a, "O_CREATE") && c20HasFlag(a, "O_EXCL"):
 						f.emit("GCreate true")
-					} else {
+					case writes:
 						f.emit("GCreate false")
 					}
 				}
